@@ -7,6 +7,7 @@ import (
 	"reflect"
 	"runtime"
 	"sort"
+	"strings"
 	"sync"
 	"testing"
 
@@ -263,6 +264,35 @@ func c08Compile(cc *eval.Config, u *Universe, src string) (c08Result, *Violation
 	return res, nil
 }
 
+// closedSource renders the tree with every variable replaced by the literal of its bound value, every
+// named constant by its literal and every registered operator by a built-in of the same shape: a
+// program that needs no names, so that it can be compiled with a nil *Config.
+func closedSource(tree *m.Node, u *Universe) string {
+	t := tree.Clone()
+	vals := rebind(u, 0)
+	t.Walk(func(x *m.Node) {
+		switch {
+		case x.Kind == m.KVar:
+			if v, ok := vals[x.Name]; ok {
+				x.Kind, x.Val, x.Name = m.KConst, v, ""
+			}
+		case x.Kind == m.KConst:
+			x.Name = ""
+		case x.Kind == m.KOp && strings.HasPrefix(x.Name, "c_"):
+			x.Name = "eq"
+		}
+	})
+	return m.Render(t)
+}
+
+// nilConfigProbes: hand-written name-free programs whose optimized and unoptimized forms differ.
+var nilConfigProbes = []string{
+	`(and (or (= 1 1) (> 2 3)) (and (< 1 2) (!= 1 2)))`,
+	`(if (and (= 1 1) (> (+ 1 2 3) 5)) (+ 1 (* 2 3)) (- 5 1))`,
+	`(or (and (> (/ 4 2) 1) (in 3 (1 2 3))) (overlap (1 2) (2 3)))`,
+	`(not (and (= "a" "a") (or (= "b" "c") (between 2 1 3))))`,
+}
+
 func checkC08(c C08Case, r *Rec) *Violation {
 	u := &c.U
 	how := HowMapAll
@@ -429,6 +459,50 @@ func checkC08(c C08Case, r *Rec) *Violation {
 			}
 		}
 	}
+	// the nil config: Compile(nil, ...) stands for a fresh default config every time. Name-free probes are
+	// compiled first; then name-free variants of the case's sources, with their directives (valid and
+	// malformed) in front, are compiled with a nil config as well; the probes must still compile to what
+	// they compiled to - a directive is for its own compilation only, whichever config object it met
+	nilSrcs := append([]string{}, nilConfigProbes...)
+	for _, sc := range c.Sources {
+		nilSrcs = append(nilSrcs, closedSource(sc.Tree, u))
+	}
+	nilFirst := make([]c08Result, len(nilSrcs))
+	for i, src := range nilSrcs {
+		res, v := c08Compile(nil, u, src)
+		if v != nil {
+			return v
+		}
+		nilFirst[i] = res
+	}
+	nilAgain := func(when string) *Violation {
+		for i, src := range nilSrcs {
+			res, v := c08Compile(nil, u, src)
+			if v != nil {
+				return v
+			}
+			if d := nilFirst[i].diff(res); d != "" {
+				return Violf("C08: Compile with a nil config gives a different program %s: %s\nsource=%q\n%s", when, d, src, describe())
+			}
+		}
+		return nil
+	}
+	nilDirectives := 0
+	for i, sc := range c.Sources {
+		if sc.Prefix == "" {
+			continue
+		}
+		nilDirectives++
+		if _, v := c08Compile(nil, u, sc.Prefix+nilSrcs[len(nilConfigProbes)+i]); v != nil {
+			return v
+		}
+		if v := nilAgain("after a nil-config compilation of a source with directives (" + strings.TrimSpace(sc.Prefix) + ")"); v != nil {
+			return v
+		}
+	}
+	if nilDirectives > 0 {
+		r.Class("nil-config-compilations-with-directives")
+	}
 	// every source once more, in reverse order
 	for i := len(srcs) - 1; i >= 0; i-- {
 		if v := compileShared(i, "recompilation in reverse order"); v != nil {
@@ -453,6 +527,18 @@ func checkC08(c C08Case, r *Rec) *Violation {
 				if v == nil {
 					if d := first[i].diff(res); d != "" {
 						v = Violf("C08: compiling concurrently (goroutine %d) gives a different program: %s\nsource=%q\n%s", gi, d, srcs[i], describe())
+					}
+				}
+				if v == nil { // ... and with a nil config, the directives of the source in front
+					ni := len(nilConfigProbes) + i
+					_, v = c08Compile(nil, u, c.Sources[i].Prefix+nilSrcs[ni])
+					if v == nil {
+						var again c08Result
+						if again, v = c08Compile(nil, u, nilSrcs[ni]); v == nil {
+							if d := nilFirst[ni].diff(again); d != "" {
+								v = Violf("C08: compiling concurrently with a nil config (goroutine %d) gives a different program: %s\nsource=%q\n%s", gi, d, nilSrcs[ni], describe())
+							}
+						}
 					}
 				}
 				if v != nil {
